@@ -837,6 +837,9 @@ func registerVerifPrims(in map[string]intrinsic, pkg string) {
 		p.pollLimit = lim
 		return &chanv{poll: true, fn: a[0]}, true
 	}
+	in[pkg+".verifPollFired"] = func(p *Path, _ *frame, _ *ssa.Function, a []value) (value, bool) {
+		return Bool(p.pollFiredAt > 0), true
+	}
 	in[pkg+".verifPollCount"] = func(p *Path, _ *frame, _ *ssa.Function, a []value) (value, bool) {
 		return ConstInt(64, int64(p.pollCount)), true
 	}
